@@ -26,7 +26,7 @@ func genLeaf(t *rapid.T) addrfmt.TapLeaf {
 	if rapid.IntRange(0, 4).Draw(t, "other-version") == 0 {
 		ver = rapid.SampledFrom([]byte{0xc2, 0xc4, 0x00, 0x02, 0x66, 0x7e, 0x80, 0xbe, 0xfe, 0x52, 0x4e}).Draw(t, "leaf-version")
 	}
-	n := rapid.OneOf(rapid.IntRange(0, 40), rapid.IntRange(0, 40), rapid.SampledFrom([]int{0, 1, 75, 76, 252, 253, 254, 255, 256, 520, 1000})).Draw(t, "script-len")
+	n := rapid.OneOf(rapid.IntRange(0, 40), rapid.IntRange(0, 40), rapid.IntRange(0, 40), rapid.IntRange(0, 40), rapid.IntRange(0, 40), rapid.SampledFrom([]int{0, 1, 75, 76, 252, 253, 254, 255, 256, 520, 1000})).Draw(t, "script-len")
 	if rapid.IntRange(0, 999).Draw(t, "huge") == 0 {
 		n = rapid.SampledFrom([]int{65535, 65536}).Draw(t, "huge-len")
 	}
